@@ -14,6 +14,12 @@ CHECKS = {
  "C03": ("differential testing against a 64-bit reference: exhaustive enumeration of all 2^16 AX x 256 operands for the byte MUL/IMUL/DIV/IDIV and of all AX x AF x CF for the adjusts, signed boundary lattice plus proptest-generated 48-bit triples with constructed quotient-overflow boundaries for the word forms, proptest-generated operand forms, accept sets where the documentation has two readings",
          "exploration; byte forms and adjusts exhaustive, word forms sampled on a boundary lattice and by generated triples whose quotient is within +-1 of the bounds by construction; divide error must come back as INT 0 (State::INT(0)), never as a panic or truncated quotient",
          "trusted: 64-bit reference arithmetic; undefined flags masked per manual; accept sets for DAA/DAS/AAA/AAS/AAM and the -128/-32768 quotient; known finding quirk:byte-imul-flags excused only where the output equals the defect model exactly", "3/C03"),
+ "C04": ("differential testing of generated single instructions against a reference effective-address model on a position-dependent memory pattern: proptest generates addressing shape x override x base x index x displacement, registers and segments are constructed so that offset sums and physical addresses land on the 16-bit and 20-bit wrap boundaries, and the whole 1 MiB is compared after the step",
+         "exploration; all 5 shapes x 5 override choices x both widths for loads, stores, read-modify-write and LEA, boundary classes constructed (and their population asserted), values sampled",
+         "trusted: reference EA model (16-bit wrapping offset, SS default iff BP is the base, override replaces, phys mod 2^20, word = phys and phys+1); known finding quirk:lea-phys-minus-ds excused only where LEA's result equals the defect model exactly", "3/C04"),
+ "C05": ("model-based testing: proptest-generated MOV/XCHG/PUSH/POP/PUSHF/POPF/LAHF/SAHF/XLAT single steps on stratified SS:SP states, and push/pop histories (vec(op,0..40)) executed in lock step with a reference stack machine, whole machine compared after every step",
+         "exploration; every operand-kind pair of MOV/XCHG/PUSH/POP in syntax.md is generated (form histogram in the evidence), SS:SP boundary classes are constructed, histories are compared step by step with registers, flags and all memory",
+         "trusted: reference machine model; PUSH SP may store old or new SP, POP SP result not compared, LAHF/SAHF compare the five defined bits", "3/C05"),
  "C06": ("exhaustive enumeration of all 2^16 flag words per jump spelling and all 2^16 CX values x ZF per LOOP/JCXZ spelling against a hand-written predicate table, plus table-independent synonym/complement relations over the outcome bitmaps",
          "exploration, exhaustive for the listed domain in both tiers: every jump/loop spelling of the grammar in both cases, assembled by the Preprocessor (forward and backward target) and executed by the Interpreter on every flag word / every CX; registers, flags and memory compared",
          "trusted: predicate table transcribed from the 8086 manual; known finding quirk:jle-and excused only where the outcome equals the defect model exactly", "3/C06"),
